@@ -63,6 +63,7 @@ func reg(p *propCfg) {
 }
 
 func init() {
+	reg(&propCfg{ID: "C14", Test: "TestC14", Quick: tierCfg{3000, 4}, Thorough: tierCfg{60000, 16}})
 	reg(&propCfg{ID: "C19", Test: "TestC19", Quick: tierCfg{6000, 4}, Thorough: tierCfg{100000, 16}})
 	reg(&propCfg{ID: "C11", Test: "TestC11", Quick: tierCfg{10000, 4}, Thorough: tierCfg{300000, 16}})
 	reg(&propCfg{ID: "C20", Test: "TestC20", Quick: tierCfg{700, 8}, Thorough: tierCfg{15000, 16}})
@@ -202,10 +203,16 @@ func runShard(p *propCfg, bin, work string, tier string, seed int64, shard int, 
 	journal := filepath.Join(work, fmt.Sprintf("journal_%d.json", shard))
 	logf := filepath.Join(work, fmt.Sprintf("log_%d.txt", shard))
 	res.failFile, res.journal, res.log = fail, journal, logf
+	rseed := strconv.FormatUint(rapidSeed(seed, shard), 10)
+	for _, e := range extraEnv {
+		if strings.HasPrefix(e, "VERIF_FORCE_RAPID_SEED=") {
+			rseed = strings.TrimPrefix(e, "VERIF_FORCE_RAPID_SEED=")
+		}
+	}
 	args := []string{
 		"-test.run", "^" + testName + "$", "-test.count=1", "-test.timeout=0", "-test.v",
 		"-rapid.checks=" + strconv.Itoa(checks),
-		"-rapid.seed=" + strconv.FormatUint(rapidSeed(seed, shard), 10),
+		"-rapid.seed=" + rseed,
 		"-rapid.nofailfile", "-rapid.shrinktime=45s",
 	}
 	cmd := exec.Command(bin, args...)
@@ -658,6 +665,75 @@ func sortedCounts(m map[string]int64) map[string]int64 {
 type stageFn func(p *propCfg, bin, work, tier string, seed int64, hooks bool, openKeys []string, cov map[string]any) ([]string, string)
 
 var stages = map[string]stageFn{}
+
+func init() {
+	// C14 (3): the same seed in several fresh processes (fresh hash seeds, fresh map orders);
+	// per-case digests (case hash, result hash) must agree.
+	stages["C14"] = func(p *propCfg, bin, work, tier string, seed int64, hooks bool, openKeys []string, cov map[string]any) ([]string, string) {
+		procs, checks := 3, 1500
+		if tier == "thorough" {
+			procs, checks = 8, 12000
+		}
+		files := make([]string, procs)
+		var wg sync.WaitGroup
+		res := make([]shardResult, procs)
+		for i := 0; i < procs; i++ {
+			files[i] = filepath.Join(work, fmt.Sprintf("digest_%d.txt", i))
+			wg.Add(1)
+			go func(i int) {
+				defer wg.Done()
+				res[i] = runShard(p, bin, work, tier, seed, 100+i, checks, 10*time.Minute, hooks, openKeys,
+					[]string{"VERIF_DIGEST=" + files[i], "VERIF_FORCE_RAPID_SEED=" + strconv.FormatUint(rapidSeed(seed, 777), 10)}, p.Test)
+			}(i)
+		}
+		wg.Wait()
+		var ref []string
+		compared := 0
+		for i := 0; i < procs; i++ {
+			if res[i].exit != 0 {
+				// a failure inside a digest process is reported by its own fail file
+				if _, err := os.Stat(res[i].failFile); err == nil {
+					dst := filepath.Join(verifDir, "replays", fmt.Sprintf("%s-%s-seed%d-proc%d.json", p.ID, tier, seed, i))
+					_ = copyFile(res[i].failFile, dst)
+					return []string{dst}, ""
+				}
+				return nil, fmt.Sprintf("digest-process-%d-exit-%d", i, res[i].exit)
+			}
+			b, err := os.ReadFile(files[i])
+			if err != nil {
+				return nil, "digest-file-missing"
+			}
+			lines := strings.Split(strings.TrimSpace(string(b)), "\n")
+			if i == 0 {
+				ref = lines
+				continue
+			}
+			if len(lines) != len(ref) {
+				return nil, "digest-length-differs-between-processes"
+			}
+			for j := range lines {
+				a, b := strings.Fields(ref[j]), strings.Fields(lines[j])
+				if len(a) != 3 || len(b) != 3 {
+					return nil, "digest-format"
+				}
+				if a[1] != b[1] {
+					return nil, "harness-generation-not-deterministic-across-processes"
+				}
+				compared++
+				if a[2] != b[2] {
+					dst := filepath.Join(verifDir, "replays", fmt.Sprintf("%s-%s-seed%d-crossprocess.json", p.ID, tier, seed))
+					msg := fmt.Sprintf(`{"property":%q,"message":"case %s of rapid seed %d: result digest differs between two fresh processes (%s vs %s); re-run the check with the same VERIF_SEED to reproduce","case":null}`, p.ID, a[0], rapidSeed(seed, 777), a[2], b[2])
+					_ = os.MkdirAll(filepath.Dir(dst), 0o755)
+					_ = os.WriteFile(dst, []byte(msg), 0o644)
+					return []string{dst}, ""
+				}
+			}
+		}
+		cov["cross_process_runs"] = procs
+		cov["cross_process_case_digests_compared"] = compared
+		return nil, ""
+	}
+}
 
 func selftest() {
 	_ = os.MkdirAll(filepath.Join(verifDir, ".build"), 0o755)
